@@ -25,16 +25,17 @@ def min_bytes(n):
     return max(1, (n.bit_length() + 7) // 8)
 
 
-def cell_bytes(c: RCell, index_of, size, with_hashes=False, ref_override=None, bogus=False):
+def cell_bytes(c: RCell, index_of, size, with_hashes=False, ref_override=None, bogus=False, donor=None):
     m = c.mask()
     d1 = len(c.refs) + 8 * c.special + 16 * bool(with_hashes) + 32 * m
     out = bytearray([d1, c.d2()])
     if with_hashes:
         sig = c.sig_levels()
+        src = donor if donor is not None and donor.sig_levels() == sig else c     # stored values taken from ANOTHER cell (same mask)
         for i in sig:
-            out += bytes([c.H(i)[0] ^ 0x80]) + c.H(i)[1:] if bogus else c.H(i)
+            out += bytes([c.H(i)[0] ^ 0x80]) + c.H(i)[1:] if bogus else src.H(i)
         for i in sig:
-            out += ((c.D(i) + 5) % 1024 if bogus else c.D(i)).to_bytes(2, 'big')
+            out += ((c.D(i) + 5) % 1024 if bogus else src.D(i)).to_bytes(2, 'big')
     out += bits_to_padded_bytes(c.bits)
     for j, r in enumerate(c.refs):
         v = index_of[r.repr_hash()]
@@ -70,7 +71,7 @@ def linear_extension(roots, prio):
 
 
 def encode(roots, magic='generic', size=None, off_bytes=None, has_idx=False, has_cache_bits=False, has_crc=False,
-           with_hashes=(), order=None, cache_bits=(), ref_override=None, bogus_hashes=()):
+           with_hashes=(), order=None, cache_bits=(), ref_override=None, bogus_hashes=(), stored_from=None):
     """roots: list of RCell. order: list of distinct cells (parents first) or None for the default.
     with_hashes / cache_bits: sets of positions in `order`.
     ref_override: {(cell position, ref number): index value} — deliberately corrupt reference indexes (negative tests).
@@ -86,7 +87,10 @@ def encode(roots, magic='generic', size=None, off_bytes=None, has_idx=False, has
     ro = {}
     for (ci, rj), v in (ref_override or {}).items():
         ro.setdefault(ci, {})[rj] = v
-    blobs = [cell_bytes(c, index_of, size, i in with_hashes, ro.get(i), i in bogus_hashes) for i, c in enumerate(order)]
+    # stored_from: {position: donor cell} - the hashes / depths STORED for that position are the donor's (a forger copies the
+    # stored values of the honest bag onto his altered cells); only meaningful for positions in with_hashes
+    blobs = [cell_bytes(c, index_of, size, i in with_hashes, ro.get(i), i in bogus_hashes, (stored_from or {}).get(i))
+             for i, c in enumerate(order)]
     payload = b''.join(blobs)
     moff = min_bytes(len(payload) * (2 if has_cache_bits else 1))
     off_bytes = moff if off_bytes is None else off_bytes
